@@ -131,13 +131,23 @@ func c05Build(c C05Case) (parts []part, cfg h.Config, be *h.Backend, want []stri
 		pay(c.Msg)
 		cmd("NOOP")
 		want = append(want, "250")
+		if (c.State == "overlimit" && k >= 2) || (c.State == "overlimit2" && k > 0) {
+			// the refusal ended the transaction: a further chunk that would fit into what is left is refused
+			// too (its payload skipped), and nothing is ever delivered as a complete message
+			g++
+			cmd("BDAT 1 LAST")
+			pay([]byte("q"))
+			cmd("NOOP")
+			want = append(want, "5xx", "250")
+		}
 	case "earlyfail", "earlyfail-last":
 		// the backend gives up without reading: the chunk is answered with its error, the rest of the
 		// declared octets is skipped (binary-transparent, no line limit), the next command is parsed behind it
 		be.Plan = func(int) h.DataPlan { return h.DataPlan{Max: 0, Verdict: h.RejErr("message"), KeepErr: true} }
 		cmd("MAIL FROM:<ok@a.example>")
 		cmd("RCPT TO:<ok@b.example>")
-		want = append(want, "250", "250")
+		cmd("RCPT TO:<ok2@b.example>")
+		want = append(want, "250", "250", "250")
 		g++
 		if c.State == "earlyfail-last" {
 			cmd(fmt.Sprintf("BDAT %d LAST", len(c.Msg)))
@@ -146,10 +156,13 @@ func c05Build(c C05Case) (parts []part, cfg h.Config, be *h.Backend, want []stri
 		}
 		pay(c.Msg)
 		cmd("NOOP")
-		if len(c.Msg) == 0 && c.State == "earlyfail" {
+		switch {
+		case len(c.Msg) == 0 && c.State == "earlyfail":
 			want = append(want, "250", "250") // an empty chunk is copied before the backend's failure can show
-		} else {
-			want = append(want, "550", "250")
+		case c.State == "earlyfail-last" && strings.HasPrefix(c.Mode, "lmtp"):
+			want = append(want, "550", "550", "250") // LMTP: the LAST chunk is answered once per recipient
+		default:
+			want = append(want, "550", "250") // every other BDAT command gets exactly one reply
 		}
 	case "malformed":
 		cmd("MAIL FROM:<ok@a.example>")
@@ -341,7 +354,7 @@ func C05(tier string) int {
 		bytes.Repeat([]byte("a"), lim-1), bytes.Repeat([]byte("b"), lim+1), bytes.Repeat([]byte("c"), 3*lim),
 		append(bytes.Repeat([]byte{0xfe}, lim+1), '\n'), append([]byte("\n"), bytes.Repeat([]byte("d"), lim+1)...),
 	}
-	run.Rule = fmt.Sprintf("messages = all strings of <=%d octets over {CR,LF,'.',NUL,0xFF,'a'} plus %d fixed payloads (CRLF.CRLF, command look-alikes, LF-free runs of line-limit-1, +1, x3 with the line limit set to %d) x every division into <=%d chunks (empty chunks, LAST on empty or non-empty) x segmentation {command/payload in separate segments, pipelined group per segment, everything in one segment, one octet per segment} x {SMTP, LMTP, LMTP per-recipient}; refused BDAT (no MAIL, all RCPT rejected, bad LAST token, over the size limit on the first and on a later chunk) and a backend that fails without reading the chunk x payloads (all strings <=%d + fixed) x segmentations; malformed BDAT lines. Distinct by construction; non-trivial = payload contains CR, LF, '.', NUL, 0xFF or is longer than the line limit, or the command is refused. every accepted conversation continues with a second two-chunk message. Oracle: one Data call per message whose reader yields the concatenation then EOF; exactly the expected reply per command; markers executed once; no payload octet executed.", maxLen, len(fixed), lim, maxParts, refLen)
+	run.Rule = fmt.Sprintf("messages = all strings of <=%d octets over {CR,LF,'.',NUL,0xFF,'a'} plus %d fixed payloads (CRLF.CRLF, command look-alikes, LF-free runs of line-limit-1, +1, x3 with the line limit set to %d) x every division into <=%d chunks (empty chunks, LAST on empty or non-empty) x segmentation {command/payload in separate segments, pipelined group per segment, everything in one segment, one octet per segment} x {SMTP, LMTP, LMTP per-recipient}; refused BDAT (no MAIL, all RCPT rejected, bad LAST token, over the size limit on the first and on a later chunk) (each followed by a further chunk that would fit: refused as well) and a backend that fails without reading the chunk (two recipients: one reply per BDAT, one per recipient only for LMTP LAST) x payloads (all strings <=%d + fixed) x segmentations; malformed BDAT lines. Distinct by construction; non-trivial = payload contains CR, LF, '.', NUL, 0xFF or is longer than the line limit, or the command is refused. every accepted conversation continues with a second two-chunk message. Oracle: one Data call per message whose reader yields the concatenation then EOF; exactly the expected reply per command; markers executed once; no payload octet executed.", maxLen, len(fixed), lim, maxParts, refLen)
 	run.Assumptions = []string{"payload octet classes {CR, LF, '.', NUL, 0xFF, other}", "known finding linelimit-counts-bdat-payload (DESIGN.md D6) is matched by signature AND by an independent simulation of the limiter's sub-space; any other mismatch is a violation"}
 	var cases []C05Case
 	modes := []string{"smtp", "lmtp", "lmtp-rcpt"}
